@@ -74,7 +74,11 @@ HintChan(p) == Topo(p.topo).main[Len(Topo(p.topo).main)]
 
 Chan(p, k) ==
   LET ab == Topo(p.topo).chans[k]
-      fwd == IF k = FocusChan(p) THEN FocusPol(p) ELSE IF IsMain(p, k) THEN DefPol(p.fee) ELSE AltPol(p)
+      fwd == IF k = FocusChan(p) THEN FocusPol(p)
+             ELSE IF k = Topo(p.topo).main[1] /\ p.sh = "eq"
+               \* the first main channel is shared by the parts: exactly enough for ONE part of the full amount
+               THEN [DefPol(p.fee) EXCEPT !.max = NeedMain(p.topo, p.fee, p.amt, 1)]
+             ELSE IF IsMain(p, k) THEN DefPol(p.fee) ELSE AltPol(p)
       rev == IF k = FocusChan(p) /\ p.state = "norev" THEN [DefPol(p.fee) EXCEPT !.has = FALSE]
              ELSE DefPol(p.fee)
       cap == IF k # FocusChan(p) THEN -1
@@ -130,7 +134,7 @@ Fams == {"A", "B", "C", "D", "E"}
 
 Base == [fam |-> "x", topo |-> 1, focus |-> 1, amt |-> 1000, fee |-> "normal", min |-> "low", max |-> "big",
          cap |-> "none", state |-> "ok", fh |-> "none", hint |-> FALSE, mpp |-> FALSE, paths |-> 1,
-         lim |-> "loose", alt |-> "same", sat |-> 2]
+         lim |-> "loose", alt |-> "same", sat |-> 2, sh |-> "big"]
 
 (* the cases of family fam on topology t with amount a *)
 Fam(fam, t, a) ==
@@ -164,8 +168,8 @@ Fam(fam, t, a) ==
     [] fam = "E" ->   \* amounts no single channel can carry -> multi-part over parallel / shared channels
        IF t \notin {3, 4, 5, 6} \/ a = 1 THEN {} ELSE
        {[B0 EXCEPT !.focus = f, !.fee = fe, !.max = mx, !.alt = al,
-                   !.mpp = TRUE, !.paths = pc, !.sat = s] :
-          f \in Foci(t), fe \in Fees,
+                   !.mpp = TRUE, !.paths = pc, !.sat = s, !.sh = sh] :
+          f \in Foci(t), fe \in Fees, sh \in {"big", "eq"},
           mx \in {"half", "eq", "below", "big"}, al \in {"half", "same"}, pc \in {2, 3, 10}, s \in {0, 2}}
 
 (* level 0: one marker state per (family, topology, amount), so that TLC's workers generate the
